@@ -190,6 +190,8 @@ HARNESSES = {
     "H15": (_b_live_not_started, {"A": ["start_refresh"], "B": ["start_refresh"]}, "live", 0),
     # one renderable object rendered by two threads for two different widths (rendering must not keep per-render
     # state on the renderable): needs scheduling points between the steps of Console.render -> "line" granularity
+    # four threads on one recording console (the statement's upper thread count), lock-level interleavings
+    "H17": (_b_plain(True), {"A": ["printA"], "B": ["printB"], "X": ["printP"], "Y": ["printQ"]}, "plain", 0),
     "H16": (_b_two_consoles, {"A": ["print_table_c1"], "B": ["print_table_c2"]}, "plain", 0),
 }
 
@@ -273,9 +275,10 @@ def sequential_reference(hid):
 # (harness, granularity, bound) per tier; completed in this order
 PLAN = {
     # bound 99 = no preemption bound at all: every interleaving of the lock / event / thread / write operations
-    "quick": [(h, "coarse", 2) for h in HARNESSES] + [(h, "shared", 1) for h in HARNESSES if h not in ("H7x", "H16")]
+    "quick": [(h, "coarse", 2) for h in HARNESSES if h != "H17"] + [("H17", "coarse", 1)]
+             + [(h, "shared", 1) for h in HARNESSES if h not in ("H7x", "H16", "H17")]
              + [(h, "coarse", 99) for h in ("H1", "H2")] + [("H16", "line", 1)],
-    "thorough": [(h, "coarse", 3) for h in HARNESSES] + [(h, "line", 1) for h in HARNESSES]
+    "thorough": [(h, "coarse", 3) for h in HARNESSES if h != "H17"] + [("H17", "coarse", 2)] + [(h, "line", 1) for h in HARNESSES if h != "H17"]
                 + [(h, "shared", 2) for h in ("H1", "H2", "H9", "H4", "H11", "H13")]
                 + [(h, "coarse", 99) for h in ("H1", "H2", "H11", "H13", "H4", "H9", "H15", "H12")],
 }
@@ -444,7 +447,7 @@ def describe(tier, seed, res):
     return {
         "rule": "per harness (H1 print||print+record, H2 print||capture, H3 log||print||export, H4/H5g/H5s live print||update "
                 "same/taller/shorter, H6 live auto-refresh thread, H7/H7x progress advance+refresh||print(||add_task), H8a/H8b "
-                "print||stop(/start/refresh), H9 live print||print, H10 transient print||stop, H11/H12 refresh||update shorter/taller, H13 update||update, H14 progress auto-refresh thread print;stop, H15 start||start, H16 one Table object printed by two threads on two consoles of different width) every schedule with <= bound preemptions at the stated granularity "
+                "print||stop(/start/refresh), H9 live print||print, H10 transient print||stop, H11/H12 refresh||update shorter/taller, H13 update||update, H14 progress auto-refresh thread print;stop, H15 start||start, H17 four printing threads on a recording console, H16 one Table object printed by two threads on two consoles of different width) every schedule with <= bound preemptions at the stated granularity "
                 "(coarse = lock/event/thread/write operations; shared = + every line of the whitelisted modules except "
                 "per-call-only console functions, bytecodes in the locked read-modify-write functions; line = every line). "
                 "An execution is one complete schedule; non-trivial = at least two threads wrote to the file or a violation; "
